@@ -741,6 +741,71 @@ def fb_stmt(g, e):
     return e.node
 
 
+def r11(ctx, r):
+    """'a session requested with TLS never carries application bytes in clear text', at the HTTP client: a URL is 'requested with
+    TLS' when its scheme is https.  The URL grammar (a regex) decides which scheme spellings are ACCEPTED, isHttps() decides
+    which are CLASSIFIED as TLS; every accepted spelling of https must be classified as TLS."""
+    import re as _re
+    fb = ctx.fb()
+    rec = fb.record(HC + "::CompiledRegexes")
+    url = [f_ for f_ in rec["fields"] if f_["n"] == "url"]
+    if not url or not url[0].get("init"):
+        raise AnalysisBroken("HttpClient::CompiledRegexes::url initialiser not found")
+    init = url[0]["init"]
+    pats = [x for x in walk(init) if x.get("k") == "str"]
+    if len(pats) != 1:
+        raise AnalysisBroken("url regex: pattern literal not found")
+    pat = pats[0]["v"]
+    m = _re.match(r"^\^\(([^()]*)\)", pat)
+    if not m:
+        raise AnalysisBroken("url regex does not start with a scheme group: %s" % pat[:30])
+    scheme_re = m.group(1)
+    flags = 0
+    args = init.get("args", [])
+    if len(args) > 1:
+        fv = const_value(args[1])
+        if fv is None:
+            # an or-expression of option constants
+            vals = [x.get("cv") for x in walk(args[1]) if x.get("cv") is not None]
+            if not vals:
+                raise AnalysisBroken("url regex: option flags not constant")
+            fv = 0
+            for v in vals:
+                fv |= v
+        flags = fv
+    icase = bool(flags & 1)          # std::regex_constants::icase == 1 << 0 (libstdc++)
+    # spellings the scheme group accepts: only the simple forms are enumerated, anything else is refused
+    if scheme_re == "https?":
+        accepted = {"http", "https"}
+    elif _re.fullmatch(r"[a-z|]+", scheme_re):
+        accepted = set(scheme_re.split("|"))
+    else:
+        raise AnalysisBroken("url regex: scheme group `%s` is not an enumeration this rule can expand" % scheme_re)
+    ih = fb.func(PU + "::isHttps", file_suffix=HCFILE)
+    rets = common.returns(ih)
+    lit = None
+    if len(rets) == 1:
+        v = strip_casts(rets[0].node.get("v") or {})
+        cp = common.cmp_parts(v)
+        if cp and cp[0] == "==":
+            ss = [x for x in (strip_casts(cp[1]), strip_casts(cp[2])) if x.get("k") == "str"]
+            ms = [x for x in (strip_casts(cp[1]), strip_casts(cp[2])) if x.get("k") == "member" and x["n"] == PU + "::scheme"]
+            if len(ss) == 1 and len(ms) == 1:
+                lit = ss[0]["v"]
+    if lit is None:
+        raise AnalysisBroken("ParsedUrl::isHttps is not `scheme == \"literal\"`")
+    # does parseUrl normalise the case of the scheme before storing it?
+    pu = fb.func(HC + "::parseUrl", file_suffix=HCFILE)
+    folds = any(x.get("k") in ("call", "mcall") and last(x.get("callee", "")) in ("tolower", "transform", "toLower", "to_lower") for x in pu.nodes.values())
+    r.instance()
+    r.expect(lit in accepted, ih, rets[0], "https never recognised", "isHttps() compares with \"%s\", which the URL grammar (%s) never produces" % (lit, scheme_re), okdesc="isHttps literal is an accepted scheme")
+    r.instance()
+    r.expect(not icase or folds, ih, rets[0], "accepted https spelling classified as plain text",
+             "the URL regex is compiled with std::regex::icase, so `HTTPS://…`, `Https://…` are accepted, but isHttps() compares the scheme with \"%s\" exactly and parseUrl does not fold its case: such a URL is "
+             "connected with TlsMode::None (port 80 by default) and the request — headers, credentials, body — goes out in clear text" % lit,
+             okdesc="scheme matched case-sensitively (only `%s` are accepted) and compared exactly" % "`, `".join(sorted(accepted)))
+
+
 def run(ctx, ck):
     r1 = ck.rule("C07-R1", "peer verification is switched on when configured and never lowered", "A10 API protocol + A5")
     r2 = ck.rule("C07-R2", "TLS 1.2 floor on every context", "A10 + A5")
@@ -756,4 +821,5 @@ def run(ctx, ck):
     ck.run_rule("C07-R7", "the peer's name is checked", "A10 + dataflow", lambda r: r7(ctx, r))
     ck.run_rule("C07-R8", "the HTTP client forwards its TLS configuration", "A10 closed set", lambda r: r8(ctx, r))
     ck.run_rule("C07-R10", "HTTP server: TLS configuration is never dropped, selects a TLS listener and is forwarded whole", "A3 who-may-write + A10 closed set", lambda r: r10(ctx, r))
+    ck.run_rule("C07-R11", "every URL scheme spelling the HTTP client accepts as https is connected with TLS", "table agreement: URL grammar vs. isHttps()", lambda r: r11(ctx, r))
     ck.run_rule("C07-R9", "a cached client connection is reused only for the TLS mode it was opened with", "dataflow: URL fields deciding the TLS mode vs. fields selecting the cached entry", lambda r: r9(ctx, r))
